@@ -32,6 +32,7 @@ func propC17(c *Ctx) propInfo {
 			{name: "crc16(body) == stored checksum", src: callResult("github.com/snksoft/crc.CalculateCRC", modPath+"/utils.Crc16"), kind: "eq"},
 		}, nil, "")
 		c.boundsAtSuccess("E8.bounds", f, 1, "len(decoded)", lenOf(nil), 36, 36)
+		c.readerAdmitsTags("E8.tag-set", f, 1, []int64{0x11, 0x51, 0x91, 0xd1})
 	}
 	if f := c.mustFn(R, "liteclient", "ParseADNLAddress"); f != nil {
 		c.mustDominate(R, f, 1, []requiredCheck{
@@ -52,12 +53,13 @@ func propC17(c *Ctx) propInfo {
 	}
 	c.floor(R, 3)
 	c.floor("E8.bounds", 3)
+	c.floor("E8.tag-set", 4)
 	c.accountLayouts()
 	c.partialAssign("E2.R-partial-assign", "tlb")
 	c.crc16Table()
 	c.valueReceivers("E14.value-receivers", "MarshalJSON", "ton")
 	return propInfo{
-		explanation: "Static structural clauses of C17: (1) the user-friendly and ADNL address parsers can return success only through the CRC16 equality test, the exact length test and (ADNL) the 0x2d tag test; the raw parser only with a 32-byte address; ParseShardID rejects 0. (2) E7 byte layouts: ToHuman writes tag|workchain|hash[2:34]|BE16 crc over [0:34] and the parser reads the same offsets; flag bits 0x80/0x40 are controlled by testnet / !bounce over base 0x11; AccountID.MarshalTL/UnmarshalTL are LE32 workchain | 32 bytes; ADNL base32 is 0x2d|addr|BE16 crc over the 33 bytes. (3) Width/sign chains: every reader undoes the writer's truncation with the inverse chain (byte->int8->int32 etc.), as one conversion, not a case analysis. (4) E11: utils.TABLE equals the CRC-16/XMODEM table for polynomial 0x1021 and Crc16/Crc16String are the MSB-first table-driven loop with initial value 0, so that the writer's utils.Crc16 and the reader's crc.XMODEM agree. (5) JSON/TL-B forms delegate to the raw / MsgAddress forms and assign both fields. NOT decided: shard prefix/mask arithmetic (shardChild/shardParent inverses, MatchAccountID prefix semantics) and the zero-fill arithmetic of the raw parser: value-level algebra over 64-bit words with no structural witness.",
+		explanation: "Static structural clauses of C17: (1) the user-friendly and ADNL address parsers can return success only through the CRC16 equality test, the exact length test and (ADNL) the 0x2d tag test; the raw parser only with a 32-byte address; ParseShardID rejects 0. (2) E7 byte layouts: ToHuman writes tag|workchain|hash[2:34]|BE16 crc over [0:34] and the parser reads the same offsets; flag bits 0x80/0x40 are controlled by testnet / !bounce over base 0x11; AccountID.MarshalTL/UnmarshalTL are LE32 workchain | 32 bytes; ADNL base32 is 0x2d|addr|BE16 crc over the 33 bytes. (3) Width/sign chains: every reader undoes the writer's truncation with the inverse chain (byte->int8->int32 etc.), as one conversion, not a case analysis. (4) E11: utils.TABLE equals the CRC-16/XMODEM table for polynomial 0x1021 and Crc16/Crc16String are the MSB-first table-driven loop with initial value 0, so that the writer's utils.Crc16 and the reader's crc.XMODEM agree. (5) JSON/TL-B forms delegate to the raw / MsgAddress forms and assign both fields. (6) E8.tag-set: for each of the four tag bytes ToHuman can write, the success return of AccountIDFromBase64Url stays reachable when every branch condition that folds to a constant under 'first decoded byte = tag' is decided (no writer tag is excluded by the reader's constant tests). NOT decided: shard prefix/mask arithmetic (shardChild/shardParent inverses, MatchAccountID prefix semantics) and the zero-fill arithmetic of the raw parser: value-level algebra over 64-bit words with no structural witness.",
 		assumptions: []string{"third-party crc.XMODEM implements CRC-16/XMODEM (poly 0x1021, init 0, no reflection)", "encoding/base64, encoding/base32, encoding/hex and strconv behave as documented"},
 	}
 }
